@@ -8,7 +8,9 @@ q1 == <<1, 0>>  q2 == <<2, 0>>  q3 == <<3, 0>>
 TemplatesV ==
   { TBuy("", q3, <<10, 0>>, Z), TBuy("Spouse", q1, <<10, 0>>, Z),
     TSell("", q1, <<12005, 3>>, Z), TSell("", q1, <<9995, 3>>, Z), TSell("", q2, <<7, 0>>, <<5, 3>>),
-    Traded(TSell("", q1, <<15, 0>>, Z), 4), TSell("", q3, <<11, 0>>, Z) }
+    Traded(TSell("", q1, <<15, 0>>, Z), 4), TSell("", q3, <<11, 0>>, Z),
+    \* a gain and an equal loss: over two years the security's total is exactly zero
+    TSell("", q1, <<12, 0>>, Z), TSell("", q1, <<8, 0>>, Z) }
 GapsV == {0, 20, 330}
 OpeningsV == {<<>>}
 SplitRatiosV == {<<2, 1>>}
